@@ -39,17 +39,17 @@ type TLCOpts struct {
 
 // TLCResult is what a run produced.
 type TLCResult struct {
-	Out        string
-	Generated  int64
-	Distinct   int64
-	Depth      int
-	Wall       time.Duration
-	ExitCode   int
-	TimedOut   bool
+	Out         string
+	Generated   int64
+	Distinct    int64
+	Depth       int
+	Wall        time.Duration
+	ExitCode    int
+	TimedOut    bool
 	InvViolated string // name of violated invariant/property, "" if none
-	Deadlocked bool
-	ErrText    string // first "Error:" block that is not an invariant violation
-	Files      map[string][]byte // files TLC wrote into the scratch dir (only *.json / *.ndjson / *.out)
+	Deadlocked  bool
+	ErrText     string            // first "Error:" block that is not an invariant violation
+	Files       map[string][]byte // files TLC wrote into the scratch dir (only *.json / *.ndjson / *.out)
 }
 
 var (
